@@ -11,7 +11,7 @@ RULE = ("every name of the space-group dictionary (all 230 groups incl. R..h / R
         "position atoms of random elements with Uiso in [0.005,0.08], random positive-definite Uani (CIF U_ij convention) or no ADP, "
         "occupancies in (0,1], hkl in [-8,8]^3; for each (group, atoms, h): F(h), F(hR) for the point operations (quick: up to 6 per h, "
         "thorough: all), F(-h); non-trivial = group with more than one operation; distinct = distinct (group, atoms, h)")
-ASSUMPTIONS = ["operations (R,t) are read from the live sg.sg instance, which is under the C04 class invariant in this run",
+ASSUMPTIONS = ["operations (R,t) are read straight from the xfab.sglib class named by the dictionary entry (not through xfab.sg.sg; every sg.sg instance the code creates, which is under the C04 class invariant in this run",
                "tolerance (1e-9 + 2 pi |h|_1 1e-6 [group has thirds/sixths]) x sum occ.mult.(|f(0)|+|f'|+|f''|): the tables round thirds to 6 digits",
                "extinction is decided exactly: h extinct iff some (R,t) has hR=h and h.t not an integer"]
 FLOORS = {"covariance:F(hR) = F(h) exp(-2 pi i h.t)": 1500, "covariance:F(-h) = conj F(h) without dispersion": 400,
@@ -116,7 +116,7 @@ def case_covariance(ctx, p):
     mon = ctx.mon
     rng = np.random.default_rng(p["s"])
     key = p["key"]
-    o = ctx.sgmod.sg(sgname=key)
+    o = c04.table_by_name(key)         # straight from xfab.sglib, not through xfab.sg.sg
     ops, problems = sx.ops_of(o.rot, o.trans)
     if problems:
         mon.check("covariance:operations readable", False, observed=problems[:2])
